@@ -87,7 +87,31 @@ def gen_type(rng, name):
     for _ in range(nres):
         src = rng.choice(kinds)
         residues.append(dict(resname=src["resname"], atoms=[list(a) for a in src["atoms"]]))
-    return dict(name=name, residues=residues, resid0=rng.choice([1, 1, 1, 7]))
+    t = dict(name=name, residues=residues, resid0=rng.choice([1, 1, 1, 7, 28]))
+    # residue numbering: consecutive from 1 / an offset (normally); across the five-digit limit of the .gro
+    # format (99999 -> 100000, printed modulo 100000); with gaps; non-monotonic (second half of the chain
+    # numbered first); a di-block whose numbering restarts -- (resid, resname) stays unique inside a molecule,
+    # which is what identifies a residue for polyply
+    roll = rng.random()
+    n = len(residues)
+    if roll < 0.08:
+        t["resid0"] = 99999 - rng.randint(0, n)
+    elif roll < 0.18:
+        t["resids"] = [t["resid0"] + 2 * r + (r // 2) for r in range(n)]
+    elif roll < 0.28 and n >= 2:
+        k = rng.randint(1, n - 1)
+        t["resids"] = list(range(k + 1, n + 1)) + list(range(1, k + 1))
+    elif roll < 0.36 and n >= 3:
+        k = rng.randint(2, n - 1)
+        t["resids"] = list(range(1, k + 1)) + list(range(1, n - k + 1))
+    if "resids" in t and len({(i, r["resname"]) for i, r in zip(t["resids"], residues)}) < n:
+        del t["resids"]
+    return t
+
+
+def resid_of(t, r):
+    """residue number of residue `r` of molecule type `t`"""
+    return t["resids"][r] if "resids" in t else t["resid0"] + r
 
 
 def gen_case(rng, thorough):
@@ -138,7 +162,7 @@ def gen_case(rng, thorough):
         name, _ = rng.choice(molecules)
         t = next(t for t in types if t["name"] == name)
         r = rng.randrange(len(t["residues"]))
-        opts["start"] = ["%s-%s#%d" % (name, t["residues"][r]["resname"], t["resid0"] + r)]
+        opts["start"] = ["%s-%s#%d" % (name, t["residues"][r]["resname"], resid_of(t, r))]
     if rng.random() < 0.2:
         opts["grid_spacing"] = rng.choice([0.5, 1.0])
     case = dict(types=types, molecules=molecules, opts=opts, seed=rng.randint(0, 10 ** 6))
@@ -256,7 +280,7 @@ def type_atoms(t):
     out = []
     for r, res in enumerate(t["residues"]):
         for atomname, atype, mass in res["atoms"]:
-            out.append((t["resid0"] + r, res["resname"], atomname, atype, mass))
+            out.append((resid_of(t, r), res["resname"], atomname, atype, mass))
     return out
 
 
@@ -292,7 +316,7 @@ def write_top(path, case):
                 for atomname, atype, mass in res["atoms"]:
                     idx += 1
                     ids.append(idx)
-                    out.write("%d %s %d %s %s %d 0.0%s\n" % (idx, atype, t["resid0"] + r, res["resname"], atomname, idx,
+                    out.write("%d %s %d %s %s %d 0.0%s\n" % (idx, atype, resid_of(t, r), res["resname"], atomname, idx,
                                                              "" if mass is None else " %r" % mass))
                 real = [i for i, a in zip(ids, res["atoms"]) if a[1] not in VIRTUAL]
                 bonds += list(zip(real[:-1], real[1:]))
@@ -350,7 +374,7 @@ def write_input(path, case):
             cell += 1
             atoms = []
             for atomname, _atype, _mass in res["atoms"]:
-                atoms.append((t["resid0"] + r, res["resname"], atomname,
+                atoms.append((resid_of(t, r), res["resname"], atomname,
                               [round(c + rng.uniform(-0.12, 0.12), 3) for c in centre]))
             resid_lines.append(atoms)
     if opts["input_kind"] == "meta":
@@ -509,6 +533,15 @@ def close(a, b, rel):
     return abs(a - b) <= rel * max(abs(a), abs(b), 1e-12)
 
 
+def _numbering(case):
+    kinds = set()
+    for t in case["types"]:
+        ids = [resid_of(t, r) for r in range(len(t["residues"]))]
+        kinds.add("past-99999" if max(ids) > 99999 else "consecutive" if "resids" not in t else
+                  "repeated" if len(set(ids)) < len(ids) else "non-monotonic" if ids != sorted(ids) else "gaps")
+    return "+".join(sorted(kinds))
+
+
 def judge(ctx, case, res, answers, box_ans):
     listing, spec, mass = answers
     replay = dict(case, history=res.get("history") or [])
@@ -517,7 +550,7 @@ def judge(ctx, case, res, answers, box_ans):
     key = json.dumps(case, sort_keys=True) if natoms > 1 else None
     if "fail_calls" in case["opts"]:
         ctx.tally(stream=case["opts"].get("stream") or ("crowded" if case["opts"].get("slab") else "giveup" if "maxiter" in case["opts"] else "interleaved"))
-    hist = dict(layout=case.get("layout") or "one-file", ignore=bool(case["opts"].get("ignore")), mode=case["opts"]["mode"], status=status, types=len(case["types"]), lines=len(case["molecules"]),
+    hist = dict(numbering=_numbering(case), layout=case.get("layout") or "one-file", ignore=bool(case["opts"].get("ignore")), mode=case["opts"]["mode"], status=status, types=len(case["types"]), lines=len(case["molecules"]),
                 grid="grid" in case["opts"], start="start" in case["opts"],
                 input=case["opts"].get("input_kind", "-"), res="build_res" in case["opts"])
     model_box = box_ans.get("box")
